@@ -5,6 +5,7 @@ import (
 	"context"
 	"encoding/base64"
 	"encoding/json"
+	"encoding/pem"
 	"errors"
 	"fmt"
 	"io"
@@ -30,16 +31,16 @@ import (
 // ---------------------------------------------------------------------------------------------
 // generator
 
-var commonMuts = []string{"status", "status", "status", "readerr", "neterr", "header", "location", "redirect",
+var commonMuts = []string{"status", "status", "status", "readerr", "neterr", "header", "content-length", "content-length", "location", "redirect",
 	"body", "body", "body-trunc", "body-trunc", "body-append", "body-append", "body-prepend",
 	"drop", "drop", "type", "type", "type", "dup", "dup-first", "extra", "keycase", "b64", "b64"}
 
-var sigMuts = []string{"sig-foreign", "sig-foreign", "sig-flip", "sig-flip", "sig-empty", "ds-trunc", "ds-trailing", "ds-trailing",
+var sigMuts = []string{"sig-foreign", "sig-foreign", "sig-decoy", "sig-decoy", "sig-flip", "sig-flip", "sig-empty", "ds-trunc", "ds-trailing", "ds-trailing",
 	"alg-hash", "alg-hash", "alg-sig", "alg-sig", "sign-hash", "sign-version", "sign-type", "ts", "ts", "ts"}
 
 var sthMuts = []string{"size", "size", "root-flip", "root-len", "root-len", "root-len"}
 
-var sctMuts = []string{"ext", "ext", "other-cert", "other-cert", "other-type", "other-type", "id-foreign", "id-foreign", "id-zero", "id-len", "id-len", "id-len", "sct-version", "sct-version"}
+var sctMuts = []string{"ext", "ext", "other-cert", "other-cert", "other-type", "other-type", "id-foreign", "id-foreign", "id-decoy", "id-zero", "id-len", "id-len", "id-len", "sct-version", "sct-version"}
 
 var arrMuts = []string{"elem-type", "elem-type", "elem-drop-field", "b64", "b64"}
 
@@ -61,6 +62,10 @@ func catalogue(method string) []string {
 
 func genMut(t *rapid.T, method string) Mut {
 	m := Mut{Kind: rapid.SampledFrom(catalogue(method)).Draw(t, "kind")}
+	if harness.Thorough() && rapid.IntRange(0, 799).Draw(t, "hugebody") == 517 {
+		// 32 MiB per case: affordable only now and then, and only in the thorough tier
+		m.Kind = "body-huge-pad"
+	}
 	switch m.Kind {
 	case "status":
 		if rapid.IntRange(0, 2).Draw(t, "anystatus") == 0 {
@@ -68,7 +73,7 @@ func genMut(t *rapid.T, method string) Mut {
 		} else {
 			m.N = rapid.SampledFrom(statusPool).Draw(t, "statusp")
 		}
-	case "neterr", "sig-empty", "sign-type", "location", "id-zero", "other-cert", "other-type":
+	case "neterr", "sig-empty", "sign-type", "location", "id-zero", "other-cert", "other-type", "sig-decoy", "id-decoy":
 	default:
 		m.N = rapid.IntRange(0, 4095).Draw(t, "n")
 		m.M = rapid.IntRange(0, 255).Draw(t, "m")
@@ -100,11 +105,35 @@ func genStep(t *rapid.T, method string) Mut {
 	return Mut{Kind: "redirect", N: rapid.IntRange(0, 4).Draw(t, "rcode"), M: rapid.IntRange(0, 2).Draw(t, "rhop")}
 }
 
+// genKeyOptions draws how the client under test is given the log key (DER only, PEM only, both equal,
+// PEM of the decoy key under the DER of the log key) and 0-2 clients built before it from the same two keys.
+func genKeyOptions(t *rapid.T, keyPEM *int, noDER *bool, decoyIdx *int, sibs *[]Sibling) {
+	switch rapid.IntRange(0, 5).Draw(t, "keyopt") {
+	case 0, 1:
+	case 2:
+		*keyPEM, *noDER = 1, true
+	case 3:
+		*keyPEM = 1
+	default:
+		*keyPEM = 2
+	}
+	*decoyIdx = rapid.IntRange(0, 3).Draw(t, "decoy")
+	n := rapid.SampledFrom([]int{0, 0, 1, 1, 2}).Draw(t, "siblings")
+	for i := 0; i < n; i++ {
+		sb := Sibling{PEM: rapid.IntRange(0, 2).Draw(t, "sibpem"), DER: rapid.IntRange(0, 2).Draw(t, "sibder")}
+		if sb.PEM == 0 && sb.DER == 0 {
+			sb.PEM = 2
+		}
+		*sibs = append(*sibs, sb)
+	}
+}
+
 func genCase(t *rapid.T) Case {
 	c := Case{Method: rapid.SampledFrom([]string{"GetSTH", "GetSTH", "GetSTH", "AddChain", "AddChain", "AddPreChain", "AddPreChain", "GetSTHConsistency", "GetProofByHash", "GetRawEntries", "GetEntries", "GetEntries", "GetEntryAndProof", "GetAcceptedRoots"}).Draw(t, "method")}
 	// p384 / p521 / rsa1024 log keys need ct.AllowVerificationWithNonCompliantKeys (set per case)
 	c.KeyKind = rapid.SampledFrom([]string{"p256", "p256", "p256", "rsa2048", "rsa2048", "rsa3072", "p384", "p521", "rsa1024"}).Draw(t, "keykind")
 	c.KeyIdx = rapid.IntRange(0, 7).Draw(t, "keyidx")
+	genKeyOptions(t, &c.KeyPEM, &c.NoDER, &c.DecoyIdx, &c.Siblings)
 	c.Timestamp = genTimestamp(t, "ts")
 	c.TreeSize = rapid.SampledFrom([]uint64{0, 1, 2, 7, 1 << 20, 1<<32 + 3, 1<<63 - 1, 1<<64 - 1}).Draw(t, "size")
 	c.Seed = rapid.Uint32().Draw(t, "seed")
@@ -242,7 +271,7 @@ func (rt *scriptRT) RoundTrip(req *http.Request) (*http.Response, error) {
 	return &http.Response{
 		Status: fmt.Sprintf("%d %s", b.Status, http.StatusText(b.Status)), StatusCode: b.Status,
 		Proto: "HTTP/1.1", ProtoMajor: 1, ProtoMinor: 1,
-		Header: h, Body: body, ContentLength: -1, Request: req,
+		Header: h, Body: body, ContentLength: b.CL, Request: req,
 	}, nil
 }
 
@@ -277,6 +306,18 @@ func asn1Chain(ders [][]byte) []ct.ASN1Cert {
 
 const logURI = "http://log.example/prefix"
 
+func keyOptClass(keyPEM int, noDER bool) string {
+	switch {
+	case noDER:
+		return "keyopt:pem-only"
+	case keyPEM == 1:
+		return "keyopt:pem+der-same"
+	case keyPEM == 2:
+		return "keyopt:pem-decoy+der"
+	}
+	return "keyopt:der-only"
+}
+
 type clients struct {
 	lc    *client.LogClient
 	adder client.AddLogClient
@@ -285,7 +326,37 @@ type clients struct {
 // newClients builds the client(s) under test: they hold the log key.
 func newClients(s *scene, rt *scriptRT) clients {
 	hc := &http.Client{Transport: rt}
-	lc, err := client.New(logURI, hc, jsonclient.Options{PublicKeyDER: s.key.SPKI, Logger: nopLogger{}})
+	pemOf := func(which int) string {
+		switch which {
+		case 1:
+			return string(pem.EncodeToMemory(&pem.Block{Type: "PUBLIC KEY", Bytes: s.key.SPKI}))
+		case 2:
+			return string(pem.EncodeToMemory(&pem.Block{Type: "PUBLIC KEY", Bytes: s.decoyKey().SPKI}))
+		}
+		return ""
+	}
+	derOf := func(which int) []byte {
+		switch which {
+		case 1:
+			return s.key.SPKI
+		case 2:
+			return s.decoyKey().SPKI
+		}
+		return nil
+	}
+	// other clients of the same process, built first from overlapping key material
+	for _, sb := range s.c.Siblings {
+		if _, err := client.New("http://sibling.example/log", hc, jsonclient.Options{PublicKey: pemOf(sb.PEM), PublicKeyDER: derOf(sb.DER), Logger: nopLogger{}}); err != nil {
+			panic(fmt.Sprintf("harness: sibling client.New: %v", err))
+		}
+	}
+	// PublicKeyDER takes precedence over PublicKey (documented on Options.ParsePublicKey): in every
+	// combination generated the client under test is configured with s.key.
+	opts := jsonclient.Options{PublicKey: pemOf(s.c.KeyPEM), PublicKeyDER: s.key.SPKI, Logger: nopLogger{}}
+	if s.c.NoDER {
+		opts.PublicKey, opts.PublicKeyDER = pemOf(1), nil
+	}
+	lc, err := client.New(logURI, hc, opts)
 	if err != nil {
 		panic(fmt.Sprintf("harness: client.New: %v", err))
 	}
@@ -437,6 +508,7 @@ func checkClient(t *testing.T, c Case) (v harness.Verdict) {
 	if c.Temporal {
 		v.Class("via-temporal-client")
 	}
+	v.Class(keyOptClass(c.KeyPEM, c.NoDER), fmt.Sprintf("siblings:%d", len(c.Siblings)))
 	if c.EmptyChain {
 		v.Class("empty-chain")
 		nm++
@@ -785,6 +857,6 @@ func (s *scene) judgeSCT(v *harness.Verdict, sct *ct.SignedCertificateTimestamp,
 // Client is the client half of C12.
 var Client = harness.Define(harness.Opts{
 	Name:  "client",
-	Rule:  "one call of one LogClient method (GetSTH, AddChain, AddPreChain - a quarter of the submissions and get-roots through a one-shard TemporalLogClient -, GetSTHConsistency, GetProofByHash, GetRawEntries, GetEntries, GetEntryAndProof, GetAcceptedRoots) by a client holding a P-256 / RSA-2048 / RSA-3072 log key (or, with AllowVerificationWithNonCompliantKeys, P-384 / P-521 / RSA-1024), against a scripted round tripper serving 1-3 answers (the last repeats); each answer is the truthful one (signed with the pool key over internal/rfc6962 inputs; chains and entries from internal/world) under 0-3 mutations (status 100..599, body read error, network error, odd headers, redirects, body replaced / truncated / extended, JSON fields dropped / wrongly typed / duplicated / re-cased / with broken base64, root hash or id of 0/31/33 bytes, foreign / flipped / empty signature, DigitallySigned truncated or followed by bytes, algorithm octets relabelled, other hash, timestamp / size / root / extensions changed after signing, signed version or signature type changed, SCT for another certificate / the other entry type, foreign or zero log id, sct_version != 0, undecodable entries). Runs under virtual time; submissions carry a virtual deadline. Non-trivial: >= 1 mutation",
+	Rule:  "one call of one LogClient method (GetSTH, AddChain, AddPreChain - a quarter of the submissions and get-roots through a one-shard TemporalLogClient -, GetSTHConsistency, GetProofByHash, GetRawEntries, GetEntries, GetEntryAndProof, GetAcceptedRoots) by a client given its key as PublicKeyDER, as PEM PublicKey, as both, or as DER under the PEM of a decoy key (DER has precedence), with 0-2 other clients built before it in the same process from the same two keys, holding a P-256 / RSA-2048 / RSA-3072 log key (or, with AllowVerificationWithNonCompliantKeys, P-384 / P-521 / RSA-1024), against a scripted round tripper serving 1-3 answers (the last repeats); each answer is the truthful one (signed with the pool key over internal/rfc6962 inputs; chains and entries from internal/world) under 0-3 mutations (status 100..599, body read error, network error, odd headers, Content-Length 0 / short / long / 2^31 / 2^48 / 2^50 / 2^62 / 2^63-1 / invalid modelled as net/http delivers it, redirects, body replaced / truncated / extended, JSON fields dropped / wrongly typed / duplicated / re-cased / with broken base64, root hash or id of 0/31/33 bytes, foreign / decoy-key / flipped / empty signature, DigitallySigned truncated or followed by bytes, algorithm octets relabelled, other hash, timestamp / size / root / extensions changed after signing, signed version or signature type changed, SCT for another certificate / the other entry type, foreign or zero log id, sct_version != 0, undecodable entries). Runs under virtual time; submissions carry a virtual deadline. Non-trivial: >= 1 mutation",
 	Quick: 8000, Thorough: 20000,
 }, genCase, checkClient)
